@@ -414,9 +414,6 @@ theorem put_label_array (a r : DimArray α) (ui : UserIndex) (v : NDArr α) (rk 
 
 /-! ### 2. errors: `put_ok_iff`, `put_unresolved_error` (the model is functional: an error writes nothing) -/
 
-/-- every mask of the index has the length of its axis -/
-def MasksFit (axes : List Axis) (ixs : List Ix) : Prop := ∀ x ∈ ixs.zip axes, MaskFit x.1 x.2
-
 /-- an index that does not normalise (too many indices, unknown dimension name, axis position out of range)
 is refused with the error of the normalisation -/
 theorem put_normalize_error (a : DimArray α) (ui : UserIndex) (rhs : RHS α) (rk : Kind) (cfg : IndexCfg)
@@ -426,14 +423,14 @@ theorem put_normalize_error (a : DimArray α) (ui : UserIndex) (rhs : RHS α) (r
   rw [getIndices_eq, h]; rfl
 
 /-- **an index that does not resolve is refused**: if some dimension does not resolve (a requested label is not
-on its axis, a slice bound is unacceptable) the call is an error - `IndexError` when the index consists of
-labels, lists, masks and full slices only -/
+on its axis, a mask has not the length of its axis, a slice bound is unacceptable) the call is an error -
+`IndexError` when the index consists of labels, lists, masks and full slices only -/
 theorem put_unresolved_error (a : DimArray α) (ui : UserIndex) (rhs : RHS α) (rk : Kind) (cfg : IndexCfg)
-    (cast : Bool) (ixs : List Ix) (h : LabelCall a ui cfg ixs) (hfit : MasksFit a.axes ixs)
+    (cast : Bool) (ixs : List Ix) (h : LabelCall a ui cfg ixs)
     (hps : resolveL a.axes ixs = none) :
     ∃ e, put a ui rhs rk cfg cast = .error e ∧ ((∀ ix ∈ ixs, SimpleIx ix) → e = .index) := by
   obtain ⟨e, he, hcls⟩ := stages_err { cfg with keepdims := false } h.mode h.tol rfl a.axes ixs h.length h.good
-    h.axes hfit hps
+    h.axes hps
   refine ⟨e, ?_, hcls⟩
   apply put_error_of_getIndices
   rw [getIndices_of_norm a.axes ui _ ixs h.norm, he]
@@ -446,17 +443,17 @@ theorem put_misfit_error (a : DimArray α) (ui : UserIndex) (v : NDArr α) (rk :
   rw [put_label_eq a ui (.arr v) rk cfg cast ixs ps h hps]
   simp [putRhs, hv, Except.map]
 
-/-- **`put_ok_iff`**: (masks of the right length) the assignment succeeds exactly when every dimension
-resolves and the right-hand side broadcasts to the selection's shape -/
+/-- **`put_ok_iff`**: the assignment succeeds exactly when every dimension resolves (every label is on its
+axis, every mask has the length of its axis, ...) and the right-hand side broadcasts to the selection's shape -/
 theorem put_ok_iff (a : DimArray α) (ui : UserIndex) (rhs : RHS α) (rk : Kind) (cfg : IndexCfg)
-    (cast : Bool) (ixs : List Ix) (h : LabelCall a ui cfg ixs) (hfit : MasksFit a.axes ixs) :
+    (cast : Bool) (ixs : List Ix) (h : LabelCall a ui cfg ixs) :
     (∃ r, put a ui rhs rk cfg cast = .ok r) ↔
       ∃ ps, resolveL a.axes ixs = some ps ∧ ∃ vget, putRhs rhs (outerShape ps) = .ok vget := by
   constructor
   · rintro ⟨r, hr⟩
     cases hps : resolveL a.axes ixs with
     | none =>
-      obtain ⟨e, he, _⟩ := put_unresolved_error a ui rhs rk cfg cast ixs h hfit hps
+      obtain ⟨e, he, _⟩ := put_unresolved_error a ui rhs rk cfg cast ixs h hps
       rw [he] at hr; cases hr
     | some ps =>
       refine ⟨ps, rfl, ?_⟩
@@ -763,7 +760,7 @@ example : LabelAddressed exArr.axes exIx [1, 2] ∧ ¬ LabelAddressed exArr.axes
 example : (∃ r, put exArr (.tuple exIx) (.arr c03exRhs) .i {} false = .ok r) ∧
     put exArr (.tuple exIx) (.arr { shape := [2], get := fun _ => 0 }) .i {} false = .error .value := by
   constructor
-  · rw [put_ok_iff exArr _ _ _ _ _ exIx c03exCall (by intro x hx m hm; simp [exIx, exArr] at hx; rcases hx with rfl | rfl <;> cases hm)]
+  · rw [put_ok_iff exArr _ _ _ _ _ exIx c03exCall]
     exact ⟨_, c03exRes, by simp [putRhs, c03exRhs, broadcastTo, outerShape]⟩
   · exact put_misfit_error exArr _ _ _ _ _ exIx _ c03exCall c03exRes (by simp [broadcastTo, outerShape])
 
@@ -777,8 +774,7 @@ example : resolveL exArr.axes c03exIxAbsent = none ∧
       good := by intro ix hix; simp [c03exIxAbsent] at hix; rcases hix with rfl | rfl <;> simp [GoodIx]
       axes := c03exCall.axes }
   have hres : resolveL exArr.axes c03exIxAbsent = none := by decide
-  obtain ⟨e, he, hc⟩ := put_unresolved_error exArr (.tuple c03exIxAbsent) (.scalar 7) .i {} false c03exIxAbsent hcall
-    (by intro x hx m hm; simp [c03exIxAbsent, exArr] at hx; rcases hx with rfl | rfl <;> cases hm) hres
+  obtain ⟨e, he, hc⟩ := put_unresolved_error exArr (.tuple c03exIxAbsent) (.scalar 7) .i {} false c03exIxAbsent hcall hres
   refine ⟨hres, e, he, hc ?_⟩
   intro ix hix; simp [c03exIxAbsent] at hix; rcases hix with rfl | rfl <;> simp [SimpleIx]
 
@@ -809,8 +805,7 @@ example (v : NDArr Nat) (hv : v.shape = [2, 2]) :
         ∀ c, InRange v.shape c → t.vals.get c = v.get c := by
   have hsh : v.shape = outerShape [.list [0, 1], .list [2, 0]] := by simp [hv, outerShape]
   obtain ⟨g, hg, _⟩ := broadcastTo_exact v _ hsh
-  obtain ⟨r, hr⟩ := (put_ok_iff exArr _ (.arr v) .i {} false c03exIxY c03exCallY
-    (by intro x hx m hm; simp [c03exIxY, exArr, fullIx] at hx; rcases hx with rfl | rfl <;> cases hm)).mpr
+  obtain ⟨r, hr⟩ := (put_ok_iff exArr _ (.arr v) .i {} false c03exIxY c03exCallY).mpr
     ⟨_, c03exResY, g, by simp [putRhs, hg]⟩
   exact ⟨r, hr, take_put_array exArr r _ v .i {} false c03exIxY _ c03exCallY rfl c03exResY c03exNodupY hsh hr⟩
 
@@ -831,21 +826,18 @@ example : GoodIx (.slice (some (.num 3)) (some (.num 1)) none) ∧
   simp [resolveL, positionsL, exArr, fullIx, Ix.isFull, hs]
   decide
 
-/-! ### the mask-length hypothesis of `put_ok_iff` cannot be dropped -/
+/-! ### a mask of the wrong length is refused by the assignment as it is by the read -/
 
-/-- COUNTEREXAMPLE (NumPy's quirk as mirrored by `putIndices`): when some dimension selects nothing, the other
-index arrays are not looked at.  `a[[False, False], [True]] = 7` on the 2 x 3 example has a mask of length 1 on
-an axis of length 3: the index does not resolve and READING it is an `IndexError`, but the assignment succeeds
-(writing nothing). -/
-theorem put_mask_length_unchecked_counterexample :
+/-- `a[[False, False], [True]] = 7` on the 2 x 3 example has a mask of length 1 on an axis of length 3: the index
+does not resolve, READING it is an `IndexError` and so is the assignment - although the first dimension selects
+nothing, so that NumPy itself would not have looked at the second index (`putIndices`): `_get_indices` checks the
+length of every boolean index against its axis before anything is written. -/
+theorem put_mask_length_checked_example :
     let ixs : List Ix := [.mask [false, false], .mask [true]]
-    resolveL exArr.axes ixs = none ∧ ¬ MasksFit exArr.axes ixs ∧
+    resolveL exArr.axes ixs = none ∧
     (match Lib.take exArr (.tuple ixs) {} with | .error e => some e | .ok _ => none) = some Err.index ∧
-    (put exArr (.tuple ixs) (.scalar 7) .i {} false).toOption.map (·.vals.toList) = some [0, 1, 2, 3, 4, 5] := by
-  refine ⟨by decide, ?_, by decide, by decide⟩
-  intro h
-  have := h (.mask [true], exArr.axes[1]) (by simp [exArr]) [true] rfl
-  simp [exArr] at this
+    (match put exArr (.tuple ixs) (.scalar 7) .i {} false with | .error e => some e | .ok _ => none) = some Err.index := by
+  refine ⟨by decide, by decide, by decide⟩
 
 
 end EndToEndMore
